@@ -168,8 +168,27 @@ def random_mask(rng, d, allow_open=True):
     return np.zeros(d, dtype=int)
 
 
-def static_system(rng, d=None, N=None, K=1, cellkind=None, poskind=None, frames=1, nmin=2, nmax=60, jitter=0.03, retype=False):
-    """one random multi-frame static system; returns (Snapshots, info)."""
+def retilt(rng, cell):
+    """same edge lengths and origin, freshly drawn tilt factors (a sheared cell: LAMMPS fix deform xy / xz / yz)"""
+    d, L = cell["d"], cell["L"]
+    c = dict(cell)
+    xy = rng.choice([-1, 1]) * rng.uniform(0.02, 0.5) * L[0]
+    xz = yz = 0.0
+    H = np.diag(L).astype(float)
+    H[1, 0] = xy
+    if d == 3:
+        xz = rng.choice([-1, 1]) * rng.uniform(0.02, 0.5) * L[0]
+        yz = rng.choice([-1, 1]) * rng.uniform(0.02, 0.5) * L[1]
+        H[2, 0], H[2, 1] = xz, yz
+    c["H"], c["tilt"] = H, (xy, xz, yz)
+    return c
+
+
+def static_system(rng, d=None, N=None, K=1, cellkind=None, poskind=None, frames=1, nmin=2, nmax=60, jitter=0.03, retype=False,
+                  vary_tilt=False):
+    """one random multi-frame static system; returns (Snapshots, info).
+    vary_tilt: for a triclinic cell and several frames, 40 % of the systems get an own tilt per frame (equal edge lengths, as the
+    analyses require); info["Hs"] then lists the cell matrix of every frame."""
     d = d or int(rng.choice([2, 3]))
     cellkind = cellkind or str(rng.choice(["ortho", "ortho", "tri+", "tri-", "tri"]))
     poskind = poskind or str(rng.choice(["gas", "lattice", "cluster", "hardcore"]))
@@ -179,10 +198,12 @@ def static_system(rng, d=None, N=None, K=1, cellkind=None, poskind=None, frames=
     N = len(f0)
     types = make_types(rng, N, K)
     snaps = []
+    shear = bool(vary_tilt and frames > 1 and cellkind.startswith("tri") and cellkind != "tri0" and rng.random() < 0.4)
+    cells = [cell] + [retilt(rng, cell) if shear else cell for _ in range(frames - 1)]
     for t in range(frames):
         f = (f0 + (rng.normal(0, jitter, f0.shape) if t else 0.0)) % 1.0
         tt = types if (t == 0 or not retype) else types[rng.permutation(N)]   # swap moves: same composition, other ids
-        snaps.append(snapshot_from(cell, f, tt, timestep=1000 * t))
-    info = {"d": d, "N": N, "K": int(len(np.unique(types))), "cell": cellkind, "pos": poskind, "frames": frames,
-            "H": cell["H"], "origin": cell["origin"]}
+        snaps.append(snapshot_from(cells[t], f, tt, timestep=1000 * t))
+    info = {"d": d, "N": N, "K": int(len(np.unique(types))), "cell": cellkind + ("/sheared" if shear else ""), "pos": poskind, "frames": frames,
+            "H": cell["H"], "origin": cell["origin"], "Hs": [c["H"] for c in cells]}
     return snapshots_from(snaps), info, cell
